@@ -645,6 +645,39 @@ impl Property for C10 {
                     }
                 }
             }
+            // ---- a key that does not resolve (never added, or removed) selects nothing, whatever the other keys hold
+            if let Some(probe) = case.probes.first() {
+                let sop = probe.op.to_stam();
+                for s in model.live_sets() {
+                    let ms = model.set(s);
+                    let sid = ms.id.clone();
+                    let mut absent: Vec<String> = crate::hist::KEYS.iter().chain(crate::hist::BARE_KEYS.iter()).map(|k| k.to_string()).filter(|k| ms.key_by_id(k).is_none()).collect();
+                    absent.push("no-such-key".to_string());
+                    absent.truncate(3);
+                    let removed_handles: Vec<usize> = (0..ms.keys.len()).filter(|k| ms.keys[*k].is_none()).chain(std::iter::once(ms.keys.len() + 2)).take(2).collect();
+                    let Some(ds) = store.dataset(AnnotationDataSetHandle::new(s)) else { continue };
+                    let mut answers: Vec<(String, Result<(usize, bool), PanicInfo>)> = vec![];
+                    for k in &absent {
+                        answers.push((format!("store.find_data({:?}, {:?})", sid, k), catch(|| (store.find_data(sid.as_str(), k.as_str(), sop.clone()).count(), store.test_data(sid.as_str(), k.as_str(), sop.clone())))));
+                        answers.push((format!("dataset.find_data({:?})", k), catch(|| (ds.find_data(k.as_str(), sop.clone()).count(), ds.test_data(k.as_str(), sop.clone())))));
+                    }
+                    for k in &removed_handles {
+                        let kh = DataKeyHandle::new(*k);
+                        answers.push((format!("dataset.find_data(stale key handle {})", k), catch(|| (ds.find_data(kh, sop.clone()).count(), ds.test_data(kh, sop.clone())))));
+                    }
+                    if !answers.is_empty() {
+                        out.label("probe_unresolvable_key");
+                    }
+                    for (what, r) in answers {
+                        out.checks += 1;
+                        match r {
+                            Ok((0, false)) => {}
+                            Ok((n, t)) => out.fail("find_data.scan", format!("unresolvable-key|{}", probe.op.name()), format!("{} with {:?} on set {} returned {} items (test_data = {}) although the key does not exist", what, probe.op, s, n, t)),
+                            Err(p) => out.fail("panic", format!("find_data-unresolvable-key|{}", p.signature()), format!("{} panicked: {}", what, p.msg)),
+                        }
+                    }
+                }
+            }
             if !out.failures.is_empty() {
                 return out;
             }
